@@ -176,11 +176,12 @@ theorem src_remove_class (h : Tag_remove_class_available = true)
         intro x acc
         simp only [pyEq, pure_eq_ok, ok_bind, truthy_bool]
         cases hx : x == strip sp cls <;> simp [bne, hx])]
-      simp only [pyLen, pure_eq_ok, ok_bind, len_gt_zero, truthy_bool]
+      -- `if len(new_classes) > 0: … else: pop` and `if not new_classes: pop; return` read alike from here on
+      simp only [pyLen, pure_eq_ok, ok_bind, len_gt_zero, truthy_bool, truthy_list_strs]
       generalize List.filter (fun x => x != strip sp cls) (tokens sp v.str) = new
       cases hne : new.isEmpty with
       | false =>
-        simp only [Bool.not_false, if_true, pyJoinStrict_strs, ok_bind]
+        simp only [Bool.not_false, Bool.not_true, Bool.false_eq_true, if_true, if_false, pyJoinStrict_strs, ok_bind]
         cases v with
         | plain s =>
           have hi : isInstance (embVal (AttrVal.plain s)) ["HTML"] = false := by simp [isInstance, builtinClasses]
@@ -195,7 +196,7 @@ theorem src_remove_class (h : Tag_remove_class_available = true)
           simp only [hi, if_true, mkHTML_str, ok_bind, e1, hu, rejoinArg, hl]
           cases attrsUpdate cfg a [[(classKey, AttrArg.html (joinStr [' '] new))]] <;> rfl
       | true =>
-        simp only [Bool.not_true, Bool.false_eq_true, if_false, pyDictPop_emb]
+        simp only [Bool.not_true, Bool.not_false, Bool.false_eq_true, if_false, if_true, pyDictPop_emb, ok_bind, pure_eq_ok]
         cases dictPop classKey a <;> rfl
 
 /-- `css(collapse_, **kwargs)` as the source has it = `css` for the interpreter's lower-casing map: for every keyword
